@@ -74,6 +74,11 @@ pub struct Pair {
     pub wbytes: Vec<u64>, // sizes of writer blocks as appended (inputs recorded by the driver)
 }
 
+thread_local! {
+    /// enumerate storage failures inside the writer's (read-only) create_proof calls as well
+    static IOERR_READS: std::cell::Cell<bool> = const { std::cell::Cell::new(false) };
+}
+
 pub struct ReplDriver {
     pub d: Driver,
     pub rng: StdRng,
@@ -216,7 +221,58 @@ impl ReplDriver {
         }
         self.rec().count("proofs_created", 1);
         self.rec().emit(ev);
+        if proof.is_some() && IOERR_READS.with(|c| c.get()) {
+            self.mkproof_ioerr(p, req);
+        }
         proof
+    }
+
+    /// C10 for the prover: every storage read of a successful create_proof fails once, on a copy of
+    /// the writer's storage; the call must report an error (never "no proof"), and the storage
+    /// reopens to the same log.
+    fn mkproof_ioerr(&mut self, p: &mut Pair, req: &Req) {
+        let images = p.w.images();
+        let nops = {
+            let (mut probe, res) = Core::open("w", VDisk::from_images(images.clone()));
+            if !matches!(res, OpenResult::Ok) {
+                return;
+            }
+            let o0 = probe.disk.ops();
+            let _ = probe.create_proof(req.block.clone(), req.hash.clone(), req.seek.clone(), req.upgrade.clone());
+            (probe.disk.ops() - o0) as usize
+        };
+        for j in 0..nops.min(24) {
+            let (mut core, res) = Core::open("w", VDisk::from_images(images.clone()));
+            if !matches!(res, OpenResult::Ok) {
+                return;
+            }
+            let at = core.disk.ops() + j as u64;
+            core.disk.arm_failure(at);
+            let mut ev = json!({"e":"ioerr","c":"w","op":req.meta("mkproof"),"j":j});
+            self.rec().begin(ev.clone());
+            let r = core.create_proof(req.block.clone(), req.hash.clone(), req.seek.clone(), req.upgrade.clone());
+            let hit = core.disk.disarm();
+            ev["ret"] = match r {
+                Ok(Some(_)) => json!({"t":"proof"}),
+                Ok(None) => json!({"t":"none"}),
+                Err(e) => e,
+            };
+            ev["hit"] = json!(hit);
+            ev["ev"] = core.drain();
+            let res = core.reopen();
+            ev["open"] = open_json(&res);
+            if let OpenResult::Ok = res {
+                ev["view"] = core.view();
+            }
+            self.rec().end();
+            if !hit {
+                continue;
+            }
+            self.rec().count("ioerr_points", 1);
+            self.rec().emit(json!({"e":"push"}));
+            self.rec().emit(ev);
+            self.rec().emit(json!({"e":"pop"}));
+        }
     }
 
     /// Apply an honest proof on the replica, with fault enumeration when configured.
@@ -229,6 +285,7 @@ impl ReplDriver {
     }
 
     pub fn honest_run(&mut self, gen: Value, g: &ReplCfg, fc: &FaultCfg, forge: bool) {
+        IOERR_READS.with(|c| c.set(fc.ioerr));
         self.rec().emit(json!({"e":"reset","gen":gen}));
         self.rec().count("histories", 1);
         let kp = test_key_pair();
